@@ -323,6 +323,14 @@ theorem second_request_refused (d : Def) (f : Fsm) (e : EType) (data : Data) (l 
     ctxEvent d f e data = (f, .errMultiple, l) := by
   rw [ctxEvent_active d f e data ha]; exact nested_second_request d f e data l tgt x hn hc
 
+/-- non-vacuity of `second_request_refused` -/
+example :
+    let d : Def := { states := ["A", "B"], events := ["go"], trans := [("go", none, some "B")], timed := [],
+                     chainLimit := 6 }
+    let f : Fsm := { state := some "A", output := .str "A", active := true, next := some ⟨.goto "A", [], "A"⟩ }
+    ctxEvent d f (.ev "go") [] = (f, .errMultiple, []) := by
+  decide
+
 /-- `two_requests_error`: if the entry action of the state being entered sends two events that
     both pass their first half (table + conditions, or Goto), the whole event ends with the
     multiplication error — for every definition, state, event and data -/
